@@ -4,3 +4,5 @@ import SnowModel.OpCond
 import SnowModel.Ops.OpCond
 import SnowModel.Simpson
 import SnowModel.Ops.Simpson
+import SnowModel.Flake
+import SnowModel.Ops.Flake
